@@ -23,6 +23,8 @@ def declare(rep):
     rep.rule("C13.validation-steps", "initialize_cell_properties(true) passes through generate_edge_set, throws on !is_manifold(), and orients the normals", floor=3)
     rep.rule("C13.manifold-test", "cell::is_manifold returns false unless every edge has exactly two faces AND V - E + F == 2 over the live nodes, edges and faces (pinched vertices and multi-shell surfaces pass the edge test alone)", floor=2)
     rep.rule("C13.poisson-grid-size", "the grid in which accepted samples are looked up has a voxel size >= the minimum distance handed to poisson_disk_sampling: get_neighborhood only visits the 27 surrounding voxels", floor=2)
+    rep.rule("C13.normals-after-orientation", "initialize_cell_properties computes the stored face normals (update_all_face_normals_and_areas) after check_face_normal_orientation on every path that runs the orientation repair: the repair re-winds faces, normals computed before it point inward", floor=1)
+    rep.rule("C13.call-once-cache", "no function on the start-up cone keeps a function-local static (const or not) whose initialiser depends on a parameter, on the object or on other run-time state: it would be computed by the first call of the process and silently reused by every later cell / simulation", floor=30)
     rep.rule("C13.parallel-handler", "the per-cell triangulation runs under parallel_exception_handler", floor=1)
     rep.rule("C13.noexcept-escape", "no noexcept function on the start-up cone lets a callee's exception escape", floor=40)
     rep.rule("C13.lost-update", "on the start-up cone no range-for mutates a by-value copy of a mesh element whose result is discarded (e.g. the orientation flip must act on the faces themselves)", floor=20)
@@ -42,6 +44,8 @@ def run(rep, prog, tier):
     noexcept_escape(rep, prog, X, ["simulation_initializer::simulation_initializer"], "C13.noexcept-escape")
     poisson(rep, prog)
     cone_lints(rep, prog)
+    normals_after_orientation(rep, prog)
+    call_once_cache(rep, prog)
 
 
 def cone_lints(rep, prog):
@@ -538,3 +542,48 @@ def _is_lmin_squared(fn, e, lmin_did):
         a, b = strip(e["c"][0]), strip(e["c"][1])
         return all(x.get("k") == "DeclRefExpr" and x["ref"]["did"] == lmin_did for x in (a, b))
     return False
+
+
+def normals_after_orientation(rep, prog):
+    fn = prog.fn("cell::initialize_cell_properties")
+    fi = prog.index(fn)
+    winds = [n for n in walk(fn["body"]) if n.get("k") == "CXXMemberCallExpr" and n.get("callee") == "cell::check_face_normal_orientation"]
+    ups = [n for n in walk(fn["body"]) if n.get("k") == "CXXMemberCallExpr" and n.get("callee") == "cell::update_all_face_normals_and_areas"]
+    if not winds:
+        raise AnalysisBroken("initialize_cell_properties: call of check_face_normal_orientation not found")
+    COND = ("IfStmt", "ForStmt", "WhileStmt", "CXXForRangeStmt", "DoStmt", "SwitchStmt", "ConditionalOperator")
+    for w in winds:
+        wc = [id(p_) for p_, _s, _c in fi.ancestors(w) if p_.get("k") in COND]
+        good = None
+        for u in ups:
+            uc = [id(p_) for p_, _s, _c in fi.ancestors(u) if p_.get("k") in COND]
+            # u runs whenever w has run: it comes later and every conditional around it also encloses w
+            if fi.order[id(u)] > fi.order[id(w)] and all(c_ in wc for c_ in uc):
+                good = u
+        if good is not None:
+            rep.ok("C13.normals-after-orientation", prog, fn, w, "check_face_normal_orientation (line %s) is followed by update_all_face_normals_and_areas (line %s) on every path" % (w.get("l"), good.get("l")))
+        else:
+            rep.violation("C13.normals-after-orientation", prog, fn, w, "face normals computed before the orientation repair",
+                          "initialize_cell_properties calls check_face_normal_orientation at line %s, which re-winds the faces of an inside-out cell, but no update_all_face_normals_and_areas() follows it on every path (calls at lines %s): the stored face::normal_ keep the direction of the input winding - a cell given with inward-wound faces is handed over with every stored normal pointing inward, and the contact models read those normals in the first iteration"
+                          % (w.get("l"), [u.get("l") for u in ups] or "none"))
+
+
+def call_once_cache(rep, prog):
+    keys = {f["key"] for f in prog.fns("simulation_initializer::simulation_initializer")}
+    cone = prog.closure(keys)
+    for k in sorted(cone, key=str):
+        fn = prog.functions[k]
+        if "/lib/" in fn.get("file", "") or not isinstance(fn.get("body"), dict) or fn.get("pseudo") or fn not in prog.repo_functions():
+            continue
+        statics = [v for v in walk(fn["body"]) if v.get("k") == "Var" and v.get("static_local")]
+        bad = []
+        for v in statics:
+            init = v.get("init")
+            runtime = isinstance(init, dict) and any(x.get("k") == "CXXThisExpr" or (x.get("k") == "DeclRefExpr" and (x.get("ref") or {}).get("dk") in ("ParmVar", "Var", "Binding") and not (x.get("ref") or {}).get("qn")) or (x.get("k") == "MemberExpr" and (x.get("ref") or {}).get("dk") == "Field") for x in walk(init))
+            if runtime:
+                bad.append(v)
+        for v in bad:
+            rep.violation("C13.call-once-cache", prog, fn, v, "static local '%s' initialised from run-time values" % v.get("name"),
+                          "%s declares 'static %s %s = %s': the initialiser is evaluated by the first call in the process only, every later call (another cell, a second simulation with other parameters) silently reuses that value" % (fn["qn"], v.get("t"), v.get("name"), short(v.get("init") or {}, 60)))
+        if not bad:
+            rep.ok("C13.call-once-cache", prog, fn, None, "%s: %d function-local static(s), none initialised from run-time values" % (fn["qn"], len(statics)))
